@@ -326,6 +326,8 @@ class Gen:
         self.bools = [i for i, d in enumerate(decls) if d["t"] == "b"]
         self.ints = [i for i, d in enumerate(decls) if d["t"] == "i"]
         self.graph_nodes = graph_nodes
+        self.wide_p = 0.04  # chance that an n-ary node gets 8-14 operands
+        self.big_graphs = False
 
     # -- leaves
     def leaf_b(self, allow_lit=True):
@@ -344,6 +346,8 @@ class Gen:
         if self.ints and r.random() < 0.6:
             d = self.decls[r.choice(self.ints)]
             return r.randint(d["lo"] - 1, d["hi"] + 1)
+        if r.random() < 0.03:
+            return r.choice(HUGE_BASES) + r.randint(-1, 2)
         return r.choice([-3, -2, -1, 0, 0, 1, 1, 2, 3, 5])
 
     def leaf_i(self, allow_lit=True):
@@ -406,16 +410,16 @@ class Gen:
                     y = self.nonlit(y, "I")
             return [r.choice(list(CMP)), x, y, r.randint(0, 2)]
         if k in ("andn", "orn"):
-            n = r.choice([0, 1, 2, 2, 3, 4])
+            n = r.choice([0, 1, 2, 2, 3, 4]) if r.random() > self.wide_p else r.randint(8, 14)
             parts = self.splitn(budget - 1, n)
             return [k, [self.gen_b(p, True) for p in parts]]
         if k in ("fold_and", "fold_or"):
-            n = r.choice([0, 1, 1, 2, 2, 3, 4])
+            n = r.choice([0, 1, 1, 2, 2, 3, 4]) if r.random() > self.wide_p else r.randint(8, 14)
             parts = self.splitn(budget - 1, n)
             items = [self.gen_b(p, True) for p in parts]
-            return [k, items, r.randint(0, 3)]
+            return [k, items, r.randint(0, 5)]
         if k == "alldiff":
-            n = r.choice([0, 1, 2, 2, 3, 3, 4])
+            n = r.choice([0, 1, 2, 2, 3, 3, 4]) if r.random() > self.wide_p else r.randint(6, 10)
             parts = self.splitn(budget - 1, n)
             items = [self.gen_i(p, True) for p in parts]
             return ["alldiff", items, r.randint(0, 1)]
@@ -446,6 +450,8 @@ class Gen:
             return [k, x, y, r.randint(0, 2)]
         if k in ("nadd", "nsub"):
             n = r.choice([1, 2, 3, 3, 4]) if k == "nadd" else r.choice([2, 2, 3, 3, 4])
+            if r.random() < self.wide_p:
+                n = r.randint(8, 12)
             parts = self.splitn(budget - 1, n)
             return [k, [self.gen_i(p, True) for p in parts]]
         if k == "sum":
@@ -462,9 +468,9 @@ class Gen:
                 cnd = self.nonlit(cnd, "B")
             return ["if", cnd, self.gen_i(b, True), self.gen_i(c, True), how]
         if k == "count":
-            n = r.choice([0, 1, 1, 2, 3, 4])
+            n = r.choice([0, 1, 1, 2, 3, 4]) if r.random() > self.wide_p else r.randint(8, 14)
             parts = self.splitn(budget - 1, n)
-            return ["count", [self.gen_b(p, True) for p in parts], r.randint(0, 3)]
+            return ["count", [self.gen_b(p, True) for p in parts], r.randint(0, 5)]
         raise AssertionError(k)
 
     def split2(self, budget):
@@ -485,6 +491,8 @@ class Gen:
     def small_graph(self):
         r = self.rng
         n = r.randint(1, 5)
+        if self.big_graphs and r.random() < 0.3:
+            n = r.randint(6, 13)
         kind = r.choice(["path", "cycle", "random", "grid", "empty"])
         edges = []
         if kind == "path":
@@ -500,6 +508,8 @@ class Gen:
                     if r.random() < 0.5:
                         edges.append([u, v] if r.random() < 0.7 else [v, u])
             r.shuffle(edges)
+        if self.big_graphs and edges and r.random() < 0.2:
+            edges.append(list(r.choice(edges)))  # duplicate edge
         return n, edges
 
     def gen_gavc(self, budget):
@@ -523,14 +533,58 @@ class Gen:
         return ["gdiv", n, edges, sizes, borders]
 
 
+def gen_template(rng, g):
+    """Constraint shapes that puzzle code really posts and that a small random tree rarely forms:
+    cardinality over many cells, linear sums, wide alldifferent, guarded comparisons."""
+    r = rng
+    kind = r.choice(["card", "card", "card", "linear", "alldiff", "guarded"])
+    if kind == "card" and g.bools:
+        n = r.choice([2, 3, 5, 8, 12, 16, 17, 20, 24])
+        items = []
+        plain = r.random() < 0.6
+        for _ in range(n):
+            q = r.random()
+            if q < 0.12:
+                items.append(["T"])
+            elif q < 0.18:
+                items.append(["F"])
+            elif plain or q < 0.8:
+                items.append(["b", r.choice(g.bools)])
+            else:
+                items.append(["not", ["b", r.choice(g.bools)], 0])
+        cnt = ["count", items, r.choice([0, 0, 1, 2, 3])]
+        c = ["c", r.randint(-2, n + 1)]
+        op = r.choice(["eq", "le", "ge", "lt", "gt", "ne", "eq", "le"])
+        node = [op, cnt, c, 0] if r.random() < 0.7 else [op, c, cnt, 0]
+        return node if r.random() < 0.85 else ["not", node, 0]
+    if kind == "linear" and g.ints:
+        n = r.choice([2, 3, 4, 6, 9])
+        items = [["i", r.choice(g.ints)] if r.random() < 0.8 else ["c", r.randint(-3, 3)] for _ in range(n)]
+        items[0] = ["i", r.choice(g.ints)]
+        lhs = [r.choice(["nadd", "sum", "nsub"]), items]
+        return [r.choice(list(CMP)), lhs, ["c", r.randint(-6, 12)], 0]
+    if kind == "alldiff" and g.ints:
+        n = r.choice([3, 5, 7, 9])
+        items = [["i", r.choice(g.ints)] if r.random() < 0.75 else ["c", r.randint(-2, 4)] for _ in range(n)]
+        return ["alldiff", items, r.randint(0, 1)]
+    if g.bools and g.ints:
+        guard = ["b", r.choice(g.bools)]
+        body = [r.choice(list(CMP)), ["i", r.choice(g.ints)], ["c", g.const()], 0]
+        return ["imp", guard, body, r.randint(0, 1)] if r.random() < 0.6 else ["iff", guard, body, 0]
+    return g.gen_b(4)
+
+
 def gen_witness(rng, decls):
     return [rng.random() < 0.5 if d["t"] == "b" else rng.randint(d["lo"], d["hi"]) for d in decls]
 
 
 def gen_constraint(rng, g, budget, witness=None, allow_lit=False):
     """A boolean AST; if a witness assignment is given the constraint is made true under it."""
-    c = g.gen_b(budget, allow_lit=allow_lit)
-    if witness is not None and len(witness) == len(g.decls):
+    if rng.random() < 0.12:
+        c = gen_template(rng, g)
+    else:
+        c = g.gen_b(budget, allow_lit=allow_lit)
+    if witness is not None and len(witness) == len(g.decls) and rng.random() < 0.85:
         try:
             ok = compile_one(c)(tuple(witness))
         except Exception:
@@ -542,8 +596,14 @@ def gen_constraint(rng, g, budget, witness=None, allow_lit=False):
     return c
 
 
-def gen_decls(rng, max_vars=8, cap=4096, allow_wide=True, min_vars=1):
-    """Declarations whose domain product stays under the cap."""
+HUGE_BASES = [2**31 - 2, -(2**31) - 1, 2**32 - 1, 2**63 - 2, -(2**63), 10**12, 255, 65535]
+
+
+def gen_decls(rng, max_vars=8, cap=4096, allow_wide=True, min_vars=1, allow_huge=True, pad_to=0):
+    """Declarations whose domain product stays under the cap.
+
+    pad_to > 0: singleton-domain integers and (while the cap allows) booleans are appended until
+    there are that many variables, so that two- and three-digit variable ids occur."""
     n = rng.randint(min_vars, max_vars)
     decls = []
     prod = 1
@@ -556,7 +616,12 @@ def gen_decls(rng, max_vars=8, cap=4096, allow_wide=True, min_vars=1):
             prod *= 2
         else:
             kind = rng.choice(["small", "small", "neg", "single", "wide" if allow_wide else "small"])
-            if kind == "small":
+            if allow_huge and rng.random() < 0.06:
+                kind = "huge"
+            if kind == "huge":
+                lo = rng.choice(HUGE_BASES)
+                hi = lo + rng.randint(0, 3)
+            elif kind == "small":
                 lo = rng.randint(0, 2)
                 hi = lo + rng.randint(0, 3)
             elif kind == "neg":
@@ -578,6 +643,13 @@ def gen_decls(rng, max_vars=8, cap=4096, allow_wide=True, min_vars=1):
             prod *= w
     if not decls:
         decls.append({"t": "b"})
+    while len(decls) < pad_to:
+        if rng.random() < 0.3 and prod * 2 <= cap:
+            decls.insert(rng.randrange(len(decls) + 1), {"t": "b"})
+            prod *= 2
+        else:
+            v = rng.randint(-3, 9)
+            decls.insert(rng.randrange(len(decls) + 1), {"t": "i", "lo": v, "hi": v})
     return decls
 
 
@@ -692,6 +764,16 @@ class Builder:
                 n = len(items)
                 shape = (2, n // 2) if n % 2 == 0 else (1, n)
                 return getattr(A.BoolArray2D(items, shape), meth)()
+            if how == 4 and all_expr and len(items) >= 1:
+                # every second element of a padded array, taken with a stepped slice
+                padded = []
+                for x in items:
+                    padded.extend([x, items[0]])
+                return getattr(A.BoolArray1D(padded)[::2], meth)()
+            if how == 5 and all_expr and len(items) >= 2:
+                # reversed slice of a 2-D array row
+                arr2 = A.BoolArray2D(list(reversed(items)) + list(items), (2, len(items)))
+                return getattr(arr2[0, ::-1], meth)()
             if how == 3 and len(items) == 1 and all_expr:
                 return getattr(items[0], meth)()
             if how == 3 and len(items) >= 2:
